@@ -65,7 +65,7 @@ pub struct CoroutinePool<'p> {
     //工作协程组
     workers: Scheduler<'p>,
     //当前协程数
-    running: AtomicUsize,
+    running: Arc<AtomicUsize>,
     //尝试取出任务失败的次数
     pop_fail_times: AtomicUsize,
     //最小协程数，即核心协程数
@@ -147,11 +147,12 @@ impl<'p> CoroutinePool<'p> {
         keep_alive_time: u64,
     ) -> Self {
         let mut workers = Scheduler::new(name, stack_size);
-        workers.add_listener(CoroutineCreator::default());
+        let running = Arc::new(AtomicUsize::new(0));
+        workers.add_listener(CoroutineCreator::new(running.clone()));
         CoroutinePool {
             state: Cell::new(PoolState::Running),
             workers,
-            running: AtomicUsize::new(0),
+            running,
             pop_fail_times: AtomicUsize::new(0),
             min_size: AtomicUsize::new(min_size),
             max_size: AtomicUsize::new(max_size),
@@ -436,6 +437,7 @@ impl<'p> CoroutinePool<'p> {
             return Ok(());
         }
         let create_time = now();
+        let home = self.running.clone();
         self.submit_co(
             move |suspender, ()| {
                 loop {
@@ -443,6 +445,12 @@ impl<'p> CoroutinePool<'p> {
                     if pool.try_run().is_some() {
                         pool.reset_pop_fail_times();
                         continue;
+                    }
+                    if !Arc::ptr_eq(&home, &pool.running) {
+                        // another pool's scheduler has taken this worker over (the ready queues
+                        // steal from each other): it is counted by the pool that created it, not
+                        // by this one, so this pool's sizes say nothing about it - it just ends
+                        return None;
                     }
                     let running = pool.get_running_size();
                     if now().saturating_sub(create_time) >= pool.get_keep_alive_time()
@@ -491,9 +499,14 @@ impl<'p> CoroutinePool<'p> {
                 "The coroutine pool has reached its maximum size !",
             ));
         }
-        self.deref().submit_co(f, stack_size, priority).map(|_| {
-            _ = self.running.fetch_add(1, Ordering::Release);
-        })
+        // count it before it is queued: once queued it may run (and end) at any moment
+        _ = self.running.fetch_add(1, Ordering::AcqRel);
+        self.deref()
+            .submit_co(f, stack_size, priority)
+            .map(|_| ())
+            .inspect_err(|_| {
+                _ = self.running.fetch_sub(1, Ordering::AcqRel);
+            })
     }
 
     fn reset_pop_fail_times(&self) {
